@@ -34,7 +34,9 @@ CLAIMED['C20'] = dict(
          "is a z3 term, the crash point and the failing operation are symbolic variables, and the solver decides on every path: the original is "
          "recoverable from F or F.bk at every instant, F is never partial, a complete run leaves F=formatted and F.bk=original, an unchanged file "
          "causes no operation, and every io error propagates. One rewrite, all crash points, all single failures. Over the real GetOptsOptions::apply_to "
-         "(1152 paths) `--backup` without `--check` leaves make_backup = true for every combination of the other flags, so that protocol is the one that runs.",
+         "(1152 paths) `--backup` without `--check` leaves make_backup = true for every combination of the other flags; create_emitter picks the backup emitter "
+         "exactly when make_backup is set (whatever the other options); write_file hands it the text on disk as the original when a newline style is fixed "
+         "(kernels shared with C06) - so that protocol is the one that runs, on the right texts.",
     note="Trusted: the stated file-system model (write = create/truncate then fill, rename atomic), Path::with_extension as a constructor giving "
          "three distinct paths, MIR printer, mirsym, cvc5/z3. Counterexamples are replayed with the real `rustfmt --backup` under strace fault "
          "injection (signal/error at the k-th rename) in a scratch directory. Outside: fsync/durability, other processes.",
@@ -90,7 +92,9 @@ CLAIMED['C06'] = dict(
          "FilesEmitter writes exactly when they differ, writes the formatted text to the file itself and never reports has_diff; the other five "
          "emitters reach no file-system write on any path; FilesWithBackupEmitter reaches one only if the texts differ), ReportedErrors::add, "
          "Session::handle_formatted_file + FormatReport::add_diff (has_diff accumulates, the other flags untouched) and format_string, the standard-input "
-         "twin of format (same exit formula: known finding, --check ignores the diff there). Texts are uninterpreted values compared for equality.",
+         "twin of format (same exit formula: known finding, --check ignores the diff there). source_file::write_file with file-name kind, newline style, "
+         "parse session, fs::read_to_string and get_original_snippet symbolic: with a newline style other than Auto the original handed to the emitter for a real "
+         "file is the text on disk (the source map is LF-normalised), else the session's text or the file. Texts are uninterpreted values compared for equality.",
     note="Trusted: MIR printer, mirsym with under-constrained objects, make_diff's contract (empty iff same lines; proved under C12), printing / Display "
          "uninterpreted, frame condition that formatting an input does not assign session.config. Counterexamples are replayed by running the real "
          "binary over a matrix of modes/files/module trees/standard input and comparing exit status, file hashes, mtimes and inodes. Known finding (open): "
@@ -104,7 +108,8 @@ CLAIMED['C15'] = dict(
          "config, restores the session's config and touches no other session field; in bin/main.rs::format with 0..2 (thorough 3) files every input "
          "is formatted with its own load_config result (or the session config when a --config-path was resolved), never with an earlier file's, the "
          "error flags an input sees are at least those its predecessor left, the session config is restored after the loop, and the exit status is "
-         ">= every per-input status and 1 only if some flag is set - i.e. the maximum of the single-file statuses. The byte-level clause is outside.",
+         ">= every per-input status and 1 only if some flag is set - i.e. the maximum of the single-file statuses; Session::handle_formatted_file from an "
+         "arbitrary session state hands the formatted text to write_file exactly once, whatever earlier inputs left behind. The byte-level clause is outside.",
     note="Thin kernel, stated as such (level other). Trusted: MIR printer, mirsym, uninterpreted load_config/Session::new/Path probes, frame condition "
          "that formatting an input does not assign session.config and only raises flags. Replay: real binary over permutations of files with "
          "different local configs and a parse failure.",
@@ -119,7 +124,8 @@ CLAIMED['C14'] = dict(
          "f32 arithmetic bit-exact in the solver's FP theory); Config::default_for_possible_style_edition (style_edition > version > edition); the three "
          "deprecated-alias setters; PartialConfig::to_parsed_config (the command line's style_edition / edition / version beat the file's when the base "
          "defaults are chosen); get_toml_path (dotted name wins in one directory, for all file/other/absent/error outcomes of both probes); and, in "
-         "bin/main.rs::format, that every input is formatted with the config resolved for it.",
+         "bin/main.rs::format, that every input is formatted with the config resolved for it; Config::override_value for every key (the option counts as "
+         "set; exactly the keys with a derived meaning - widths, max_width, use_small_heuristics, the three aliases, version - re-derive it).",
     note="Known findings (open, re-derived and replayed every run): Default heuristics exceed max_width below 60/70/35/50, Off yields usize::MAX. Trusted: MIR "
          "printer, mirsym, solver FP theories, uninterpreted default_with_style_edition / fs::metadata / Path::join / canonicalize, ignored eprintln!. "
          "Outside: directory walk and home fallbacks, TOML/getopts parsing, print-config round trip.",
@@ -162,7 +168,8 @@ CLAIMED['C12'] = dict(
          "texts at its walk position, closed hunks are untouched and not overlapped, removed/added lines are recorded, the report is empty iff nothing "
          "changed, the invariant is re-established - hence scripts of any length. ModifiedLines::from, the Display grammar of ModifiedLines (token model of "
          "the formatter output), json begin/end lines and texts, checkstyle line numbers and XmlEscaped (per character) are decided for hunks of <= 3 "
-         "(thorough 4) lines with symbolic kinds and uninterpreted texts.",
+         "(thorough 4) lines with symbolic kinds and uninterpreted texts (json texts as atom lists with an uninterpreted emptiness predicate per line text when "
+         "they are not built piecewise).",
     note="Trusted: MIR printer, mirsym (mid-function start via MIR debug info), diff::lines returns a valid alignment, formatting as a token model, iterator "
          "adaptors with real closure MIR. Outside: ModifiedLines::FromStr (str::lines / split_whitespace / parse are not encoded; checked natively only), "
          "serde_json escaping, control characters in XML. Replay/validation: the real functions through hooks on all scripts of length <= 5.",
